@@ -366,6 +366,20 @@ def _generator(mol, grids, nspin, sobj, **kw):
     return g
 
 
+def _features(rec, g, rho, spin, label):
+    """get_features; the documented refusal 'NLDF exponent is too large! Please increase nalpha/alpha_max' (an exponent
+    above the top of the ladder at a point with rho > rhocut, typical for one-orbital spin channels in the far tail) is
+    not a property violation: the settings object is skipped for this density and the event is recorded."""
+    try:
+        return g.get_features(rho, spin=spin)
+    except RuntimeError as e:
+        if "exponent is too large" not in str(e):
+            raise
+        rec.tag("alpha_max_exceeded", label)
+        rec.notes["alpha_max_exceeded[%s]" % label] = rec.notes.get("alpha_max_exceeded[%s]" % label, 0) + 1
+        return None
+
+
 def _stats(a, ref):
     """RMS-relative and worst-point error of a against ref, and the scale rms(ref)."""
     a = np.asarray(a, dtype=float)
@@ -386,8 +400,10 @@ def _median_dev(a, ref):
     ref = np.asarray(ref, dtype=float)
     sc = math.sqrt(float(np.mean(ref ** 2)))
     m = np.abs(ref) >= 0.1 * sc
-    if not np.all(np.isfinite(a)) or m.sum() < 3:
+    if not np.all(np.isfinite(a)):
         return float("nan")
+    if m.sum() < 5:
+        return None  # the feature lives on a handful of points (core-dominated): no meaningful median
     return abs(float(np.median(a[m] / ref[m])) - 1.0)
 
 
@@ -421,11 +437,11 @@ def _decide(rec, key, label, res, fast, lo, hi, hi_idx, spin, extra=None):
     if any(t is None for t in tols.values()):
         rec.note("uncalibrated[%s]" % names["rms"], None)
         return None, s_rms
-    gated = {st: t for st, t in tols.items() if t <= CAP or CALIB}
     rms, worst, _ = _stats(fast, lo)
     obs = {"rms": rms, "worst": worst, "median": _median_dev(fast, lo)}
+    gated = {st: t for st, t in tols.items() if (t <= CAP or CALIB) and obs[st] is not None}
     for st in tols:
-        if st not in gated:
+        if st not in gated and obs[st] is not None:
             k = "not_gated[%s]" % names[st]
             rec.notes[k] = max(float(obs[st]), rec.notes.get(k, 0.0))
     if not gated:
@@ -484,7 +500,9 @@ def _run_nldf_def(case, rec, rng):
         _tag_set(rec, sobj, desc)
         g = _generator(mol, grids, nspin, sobj)
         for s in range(nspin):
-            feat = g.get_features(rhos[s], spin=s)
+            feat = _features(rec, g, rhos[s], s, "v%s,%s" % (desc["version"], desc["rho_mult"]))
+            if feat is None:
+                continue
             ok = rec.require("nldf_feature_shape", feat.shape[0] == len(feats) == sobj.nfeat,
                              mechanism="nldf[v%s]:feature-count" % desc["version"])
             if not ok:
@@ -535,7 +553,10 @@ def _run_nldf_refine(case, rec, rng):
             _tag_set(rec, sobj, desc)
             g = _generator(mol, grids, nspin, sobj, **kw)
             for s in range(nspin):
-                f = g.get_features(rhos[s], spin=s)[:, sels[s]]
+                f = _features(rec, g, rhos[s], s, "v%s,%s,%s" % (desc["version"], desc["rho_mult"], res))
+                if f is None:
+                    continue
+                f = f[:, sels[s]]
                 for k, (key, label) in enumerate(feats):
                     total += 1
                     rms, srms = _decide(rec, key, label, res, f[k], refs[s].lo[iset][k], refs[s].hi[iset][k],
@@ -614,15 +635,22 @@ def _run_nldf_paths(case, rec, rng):
         sobj, desc, feats = _make_set(rng, ver, level, mult)
         _tag_set(rec, sobj, desc)
         F = {}
-        g = _generator(mol, grids, nspin, sobj)
-        F["direct"] = np.stack([g.get_features(rhos[s], spin=s)[:, mask] for s in range(nspin)])
-        for name, kw in PATH_VARIANTS:
-            g = _generator(mol, grids, nspin, sobj, **kw)
-            F[name] = np.stack([g.get_features(rhos[s], spin=s)[:, mask] for s in range(nspin)])
-            rec.tag("path", name)
-        # reference-grade path of the training-data generator: descriptors getter with a prepared analyzer
-        F["train_gen"] = np.asarray(get_descriptors(ana, sobj, inner_grids=grids))
-        F["train_gen_l3"] = np.asarray(get_descriptors(ana, sobj))
+        try:
+            g = _generator(mol, grids, nspin, sobj)
+            F["direct"] = np.stack([g.get_features(rhos[s], spin=s)[:, mask] for s in range(nspin)])
+            for name, kw in PATH_VARIANTS:
+                g = _generator(mol, grids, nspin, sobj, **kw)
+                F[name] = np.stack([g.get_features(rhos[s], spin=s)[:, mask] for s in range(nspin)])
+                rec.tag("path", name)
+            # reference-grade path of the training-data generator: descriptors getter with a prepared analyzer
+            F["train_gen"] = np.asarray(get_descriptors(ana, sobj, inner_grids=grids))
+            F["train_gen_l3"] = np.asarray(get_descriptors(ana, sobj))
+        except RuntimeError as e:
+            if "exponent is too large" not in str(e):
+                raise
+            rec.tag("alpha_max_exceeded", "v%s,%s" % (ver, mult))  # documented refusal, see _features
+            rec.notes["alpha_max_exceeded[v%s,%s]" % (ver, mult)] = 1
+            continue
         rec.tag("path", ["train_gen(descriptors.get_descriptors)", "onsite_direct"])
         ok = rec.require("descriptor_shape", F["train_gen"].shape == F["direct"].shape == F["train_gen_l3"].shape,
                          mechanism="nldf:descriptors-getter:shape", detail={"got": list(F["train_gen"].shape), "want": list(F["direct"].shape)})
